@@ -61,7 +61,7 @@ def gateway_run(fams, nontrivial_kinds):
             tot["distinct"] += res["distinct_schedules"]
             tot["lines"] += res["trace_lines"]
             relevant += sum(res["kinds"].get(k, 0) for k in nontrivial_kinds)
-            cov_f[fam] = {k: res[k] for k in ("schedules", "traces", "trace_lines", "executed_steps", "skipped_steps", "env_states", "kinds", "wall_s", "cached", "tree")}
+            cov_f[fam] = {k: res[k] for k in ("schedules", "traces", "trace_lines", "executed_steps", "skipped_steps", "env_states", "kinds", "wall_s", "cached", "tree", "window_total")}
             if res.get("sample"):
                 samples.append(dict(family=fam, **res["sample"]))
         cov = dict(states=max(1, tot["states"]), transitions=max(1, tot["transitions"]),
@@ -113,19 +113,19 @@ def replay(v, workdir):
 
 EV = ["cres", "cev"]
 PROPS = {
-    "C01": dict(run=gateway_run(["stream", "gc", "query"], EV)),
-    "C02": dict(run=gateway_run(["gc", "stream"], EV)),
-    "C03": dict(run=gateway_run(["stream", "access"], ["cev"])),
-    "C07": dict(run=gateway_run(["gc", "access"], ["cres"])),
-    "C08": dict(run=gateway_run(["gc", "cache"], ["cres"])),
-    "C09": dict(run=gateway_run(["cache", "query"], ["msub", "munsub", "mreq"])),
-    "C10": dict(run=gateway_run(["access"], ["mreq", "cres", "cev"])),
-    "C11": dict(run=gateway_run(["cache", "access"], ["close", "sockClosed"])),
-    "C04": dict(run=gateway_run(["access", "cache"], ["mres", "cres"])),
-    "C05": dict(run=gateway_run(["access"], ["mreq"])),
-    "C06": dict(run=gateway_run(["access", "stream"], ["note", "cev"])),
-    "C13": dict(run=gateway_run(["query"], ["mreq", "mres"])),
-    "C15": dict(run=gateway_run(["gc", "stream", "access", "cache", "query"], ["cres", "cev"])),
+    "C01": dict(run=gateway_run(["stream", "gc", "query", "win-load", "win-query", "win-alias", "win-gc"], EV)),
+    "C02": dict(run=gateway_run(["gc", "stream", "win-gc", "win-load"], EV)),
+    "C03": dict(run=gateway_run(["stream", "access", "win-load", "win-recheck"], ["cev"])),
+    "C07": dict(run=gateway_run(["gc", "access", "win-gc", "win-recheck"], ["cres"])),
+    "C08": dict(run=gateway_run(["gc", "cache", "win-gc", "win-evict"], ["cres"])),
+    "C09": dict(run=gateway_run(["cache", "query", "win-evict"], ["msub", "munsub", "mreq"])),
+    "C10": dict(run=gateway_run(["access", "win-recheck"], ["mreq", "cres", "cev"])),
+    "C11": dict(run=gateway_run(["cache", "access", "win-evict"], ["close", "sockClosed"])),
+    "C04": dict(run=gateway_run(["access", "cache", "win-recheck"], ["mres", "cres"])),
+    "C05": dict(run=gateway_run(["access", "win-recheck"], ["mreq"])),
+    "C06": dict(run=gateway_run(["access", "stream", "win-recheck", "win-load"], ["note", "cev"])),
+    "C13": dict(run=gateway_run(["query", "win-query", "win-alias"], ["mreq", "mres"])),
+    "C15": dict(run=gateway_run(["gc", "stream", "access", "cache", "query", "win-load", "win-recheck", "win-query", "win-alias", "win-evict", "win-gc"], ["cres", "cev"])),
 }
 
 
